@@ -569,18 +569,16 @@ pub struct Verdict {
     pub expect: Expect,
 }
 
-/// The documented panic message of `from_file` for a given reason, if the documentation names one.
-fn documented_from_file_message(reason: &str, o: &Observed) -> Option<&'static str> {
-    if reason.contains("does not exist") {
-        Some("The specified file could not be found")
-    } else if reason.contains("not valid UTF-8") {
-        Some("The specified file's encoding is not valid UTF-8")
-    } else if reason.contains("no test cases") {
-        Some("No test cases have been provided for regular expression generation")
-    } else if o.hard_err.iter().any(|(c, e)| c == "op" && *e == 2) {
-        Some("The specified file could not be found")
-    } else if o.hard_err.iter().any(|(c, e)| c == "op" && *e == 13) {
-        Some("Permission denied: The specified file could not be opened")
+/// `from_file` must behave like `from()` on the file's lines: for a file without lines that is whatever
+/// `from(&[])` does today (a panic with some message). For files that cannot be read or decoded the property
+/// only requires that no pattern is returned; the wording of those panics is not part of it.
+fn required_from_file_message(reason: &str) -> Option<String> {
+    if reason.contains("no test cases") {
+        let empty: Vec<String> = vec![];
+        guarded(move || {
+            let _ = RegExpBuilder::from(&empty);
+        })
+        .err()
     } else {
         None
     }
@@ -599,10 +597,10 @@ fn clean_rejection_because(case: &Case, o: &Observed, reason: &str) -> Result<()
         // the library's from_file: unusable input must panic (documented), never return a pattern
         let out = String::from_utf8_lossy(&o.stdout_accepted).to_string();
         if let Some(rest) = out.strip_prefix("PANIC ") {
-            if let Some(want) = documented_from_file_message(reason, o) {
+            if let Some(want) = required_from_file_message(reason) {
                 let got: String = serde_json::from_str(rest.trim()).unwrap_or_default();
                 if got != want {
-                    return Err(("from_file_wrong_panic_message".into(), format!("panicked with {:?}, documented {:?}", got, want)));
+                    return Err(("from_file_unlike_from".into(), format!("panicked with {:?}, from() on the same (empty) list panics with {:?}", got, want)));
                 }
             }
             return Ok(());
@@ -651,9 +649,8 @@ pub fn judge(case: &Case, o: &Observed) -> Verdict {
                 format!("stdout {:?} expected {:?}", String::from_utf8_lossy(&o.stdout_accepted), String::from_utf8_lossy(bytes)),
             ));
         }
-        if !o.stderr_accepted.is_empty() {
-            return Err(("stderr_not_empty".into(), format!("stderr {:?}", err_text)));
-        }
+        // Text on stderr next to a faithful result and exit 0 (a warning, say) is not against the property, which
+        // speaks about what is printed as the result and about the exit status; it is counted, not judged.
         Ok(())
     };
     match &expect {
